@@ -33,7 +33,7 @@ REQUIRED = {"rerun.lists_exactly_unsuccessful": {"quick": 500, "thorough": 25000
             "rerun.lists_what_the_reference_model_says_failed": {"quick": 150, "thorough": 8000},
             "rerun.scenario_whose_hook_raised_is_listed": {"quick": 40, "thorough": 2000}}
 REQUIRED_SEEN = {"listed_status": ["failed", "error", "hook_error"], "feature_order": ["directory", "explicit_reversed"],
-                 "fail_fast_environment": ["feature", "rule"], "nested_sub_step": ["undefined", "fail", "error"], "second_run_environment": ["autoretry_recipe", "plain"], "first_run_selection": ["name_pattern_matching_rows_only"], "program_shape": ["stepless_scenarios"], "stepless_scenario_with_raising_hook_under_fail_fast": ["before_scenario", "after_scenario", "before_tag", "after_tag"], "rerun_loop_shape": ["input_only", "same_file_in_and_out", "same_file_in_and_out_by_config"], "raising_hook_of_listed_scenario": ["before_tag", "after_tag", "before_scenario", "before_step"]}
+                 "fail_fast_environment": ["feature", "rule"], "nested_sub_step": ["undefined", "fail", "error"], "second_run_environment": ["autoretry_recipe", "plain"], "first_run_selection": ["name_pattern_matching_rows_only"], "program_shape": ["stepless_scenarios"], "wip_run_with_rerun_by_config": ["some_listed", "none_to_list"], "rerun_file_directory": ["exists", "1_levels_to_create", "2_levels_to_create", "3_levels_to_create"], "stepless_scenario_with_raising_hook_under_fail_fast": ["before_scenario", "after_scenario", "before_tag", "after_tag"], "rerun_loop_shape": ["input_only", "same_file_in_and_out", "same_file_in_and_out_by_config"], "raising_hook_of_listed_scenario": ["before_tag", "after_tag", "before_scenario", "before_step"]}
 NSHARDS = {"quick": 16, "thorough": 16}
 
 
@@ -71,7 +71,7 @@ def one_history(lab, mon, rng, case, stale, sample=False):
                 fh.write(text)
         os.chdir(root)
         rerun_file = case.get("rerun_file") or "rerun.txt"
-        if os.path.dirname(rerun_file):
+        if os.path.dirname(rerun_file) and case.get("rerun_dir_exists", True):
             os.makedirs(os.path.dirname(rerun_file))
         if stale and rerun_file == "rerun.txt":
             with open("rerun.txt", "w") as fh:
@@ -278,6 +278,49 @@ def duplicate_names(case, rng):
     case["duplicate_names"] = True
 
 
+def wip_history(mon, rng):
+    """The documented set-up -- behave.ini names the rerun formatter and its file -- and a `behave --wip` run (no -f on the command
+    line): the file lists the @wip scenarios that did not succeed, a run without any removes the stale file."""
+    from ..lab.subproc import Project
+    gen = {"outcomes": ["fail", "error", "undefined"], "max_features": 2, "p_nonpass": 0.3, "p_wip": 0.5, "p_stepless": 0.0, "max_items": 3}
+    case = RB.gen_case(rng, gen=gen, p_stop=0.0, p_dry=0.0, p_noskipped=0.0, tags=False)
+    cfg = dict(case["cfg"], tags=["lit", "wip"], stop=True)
+    pred = runmodel.predict(case["program"], cfg)
+    if pred.aborted:
+        return
+    proj = Project(case["program"])
+    try:
+        with open(os.path.join(proj.root, "behave.ini"), "w") as fh:
+            fh.write("[behave]\nformat = rerun\noutfiles = rerun.txt\n")
+        with open(os.path.join(proj.root, "rerun.txt"), "w") as fh:
+            fh.write("# -- RERUN: stale\nfeatures/nosuch.feature:3\n")
+        r1 = proj.run(["--wip"])
+        if r1.get("timeout"):
+            mon.note("subprocess watchdog fired (inconclusive case)")
+            return
+        lines = read_rerun(os.path.join(proj.root, "rerun.txt"))
+        from behave.runner_util import parse_features
+        cwd = os.getcwd()
+        os.chdir(proj.root)
+        try:
+            feats = parse_features(["features/" + f["file"] for f in case["program"]["features"]])
+        finally:
+            os.chdir(cwd)
+        by_loc = {}
+        for f in feats:
+            for sc in f.walk_scenarios():
+                by_loc["features/%s:%d" % (os.path.basename(f.filename), sc.line)] = sc.name
+    finally:
+        proj.close()
+    c2 = dict(case, args=["--wip"], config_file="format = rerun / outfiles = rerun.txt")
+    want = sorted(n for n, bad in pred.scen_failed.items() if bad)
+    got = None if lines is None else sorted(by_loc.get(l, "?" + l) for l in lines)
+    mon.case(("wip", RB.strip_case(c2)), True)
+    mon.seen("wip_run_with_rerun_by_config", "some_listed" if want else "none_to_list")
+    mon.check("rerun.wip_run_with_configured_rerun_file", (got or []) == want and (lines is None) == (not want),
+              lambda: RB.witness(c2, listed=got, model=want, file_exists=lines is not None, rc=r1["rc"], stdout=r1["stdout"][-400:], stderr=r1["stderr"][-300:]))
+
+
 def subprocess_history(mon, rng, case):
     from ..lab.subproc import Project
     proj = Project(case["program"])
@@ -381,8 +424,12 @@ def run(spec, mon):
                 mon.seen("nested_sub_step", sub_kind)
         if i % 10 == 7:
             # "-f rerun -o reports/rerun.txt": the report in a sub-directory, fed back as @reports/rerun.txt
-            case = dict(case, rerun_file="reports/rerun.txt")
+            place = rng.choice(["reports/rerun.txt", "reports/rerun.txt", "build/reports/rerun.txt", "build/reports/2024/rerun.txt"])
+            exists = place == "reports/rerun.txt" and rng.random() < 0.5
+            # (directories that do not exist yet are made by behave when it opens the report -- however many levels)
+            case = dict(case, rerun_file=place, rerun_dir_exists=exists)
             mon.seen("rerun_file_place", "subdirectory")
+            mon.seen("rerun_file_directory", "exists" if exists else "%d_levels_to_create" % place.count("/"))
         if i % 4 == 2:
             # a feature file whose NAME contains a '#' (issue#12.feature): in a list file only a line that STARTS with '#' is a comment
             victim = rng.choice(case["program"]["features"])
@@ -415,6 +462,8 @@ def run(spec, mon):
         gen = {"outcomes": outs, "max_features": 2, "p_nonpass": 0.5, "p_stepless": 0.0}
         case = RB.gen_case(rng, gen=gen, p_stop=0.0, p_dry=0.0, tags=False)
         subprocess_history(mon, rng, case)
+    for i in range(2 if tier == "quick" else 20):
+        wip_history(mon, rng)
 
 
 def replay(case, mon):
